@@ -50,8 +50,23 @@ def sources(tier):
                 for seed in (1, 2) if tier != "quick" else (1,):
                     expr = tmpl.format(g=GENS[gk].format(seed=seed), shape=shape, chunks=chunks, n=n)
                     out.append({"random": expr, "shape": list(shape), "chunks": [list(c) for c in chunks], "alt": tmpl.format(g=GENS[gk].format(seed=seed + 100), shape=shape, chunks=chunks, n=n), "dist": dname,
-                                "sib": None if dname == "permutation" else tmpl.format(g=GENS[gk].format(seed=seed), shape="{shape}", chunks="{chunks}", n=n)})
+                                "sib": None if dname == "permutation" else tmpl.format(g=GENS[gk].format(seed=seed), shape="{shape}", chunks="{chunks}", n=n),
+                                "gen": GENS[gk].format(seed=seed), "draw": tmpl.format(g="G", shape=shape, chunks=chunks, n=n),
+                                "param_sib": PARAM_SIB[dname].format(g=GENS[gk].format(seed=seed), shape=shape, chunks=chunks, n=n) if dname in PARAM_SIB else None})
     return out
+
+
+# the same seed, distribution and layout with ANOTHER parameter value (passed
+# positionally or by keyword, as the public signature forwards it)
+PARAM_SIB = {
+    "random": "{g}.random({shape}, chunks={chunks}, dtype='float32')",
+    "normal": "{g}.normal(1.0, 5.0, size={shape}, chunks={chunks})",
+    "uniform": "{g}.uniform(-1.0, 3.0, size={shape}, chunks={chunks})",
+    "integers": "{g}.integers(0, 1000, size={shape}, chunks={chunks})",
+    "randint": "{g}.randint(0, 1000, size={shape}, chunks={chunks})",
+    "exponential": "{g}.exponential(5.0, size={shape}, chunks={chunks})",
+    "choice": "{g}.choice(np.arange(20.0), size={shape}, chunks={chunks})",
+}
 
 
 def sibling_layouts(shape, chunks):
@@ -77,9 +92,9 @@ _base = X.make(
     "C23", judge,
     quick=lambda seed: (E.plan_shards(sources("quick"), OPS.subset(names=DERIVED), 2), {"depth": 2, "ops": len(DERIVED), "random_sources": len(sources("quick"))}),
     thorough=lambda seed: (E.plan_shards(sources("thorough"), OPS.subset(names=DERIVED), 2), {"depth": 2, "ops": len(DERIVED), "random_sources": len(sources("thorough"))}),
-    rule="(plus, per source: every sibling layout with the same element count and block count -- same shape cut elsewhere, transposed shape -- drawn from the same seed while the first array is alive keeps its requested shape/chunks, joint and separate computes agree, x - sibling is computed from both realizations) for every generator kind (RandomState, default_rng) x distribution (random, normal with scalar and array-valued loc, poisson with array lam, uniform, integers/randint, standard_normal, exponential, choice, permutation) x shape/chunking: a = x.compute() once; every depth<=2 program derived from x (slices, takes, rechunks, transposes, elemwise with itself and with siblings, reductions, scans, windows, fused chains) equals the NumPy op on a; recomputing x equals a; rebuilding with the same seed gives the same name and values; another seed gives other values; the derived programs are computed in both orders and twice. Non-trivial = multi-block random source",
+    rule="(plus, per source: two draws from one generator object in both compute orders -- the first equals the same draw made alone; the same seed and layout with another parameter value is another array with its own name, dtype and values; every sibling layout with the same element count and block count -- same shape cut elsewhere, transposed shape -- drawn from the same seed while the first array is alive keeps its requested shape/chunks, joint and separate computes agree, x - sibling is computed from both realizations) for every generator kind (RandomState, default_rng) x distribution (random, normal with scalar and array-valued loc, poisson with array lam, uniform, integers/randint, standard_normal, exponential, choice, permutation) x shape/chunking: a = x.compute() once; every depth<=2 program derived from x (slices, takes, rechunks, transposes, elemwise with itself and with siblings, reductions, scans, windows, fused chains) equals the NumPy op on a; recomputing x equals a; rebuilding with the same seed gives the same name and values; another seed gives other values; the derived programs are computed in both orders and twice. Non-trivial = multi-block random source",
     assumptions=["the first computed realization is the reference", "synchronous scheduler"],
-    floors={"evaluations": 3000, "rebuild_checks": 20, "sibling_checks": 100},
+    floors={"evaluations": 3000, "rebuild_checks": 20, "sibling_checks": 100, "two_draw_checks": 40, "param_sibling_checks": 20},
 )
 globals().update(_base)
 _monitor0 = _base["monitor"]
@@ -141,6 +156,53 @@ def monitor(ctx):
                     d = np.asarray((x - sb).compute(scheduler="sync")) if x.dtype.kind in "fi" else None
                     if d is not None and not np.allclose(d, a.astype("f8") - v1.astype("f8"), equal_nan=True):
                         return [{"kind": "sibling-diff", "signature": f"sibling-diff:{src['dist']}", "detail": f"(x - sibling {ch}) is not computed from the two realizations"}]
+        # two draws from ONE generator object: the first one keeps the realization
+        # it has when it is drawn alone and computed at once (x), whatever is drawn
+        # afterwards and whichever is computed first
+        if src.get("draw"):
+            for order in ("first-then-second", "second-then-first"):
+                out.count("two_draw_checks")
+                try:
+                    G_ = eval(src["gen"], {"da": da, "np": np})
+                    d1 = eval(src["draw"], {"da": da, "np": np, "G": G_})
+                    d2 = eval(src["draw"], {"da": da, "np": np, "G": G_})
+                    if order == "first-then-second":
+                        v1 = np.asarray(d1.compute(scheduler="sync"))
+                        v2 = np.asarray(d2.compute(scheduler="sync"))
+                    else:
+                        v2 = np.asarray(d2.compute(scheduler="sync"))
+                        v1 = np.asarray(d1.compute(scheduler="sync"))
+                except NotImplementedError:
+                    break
+                except Exception as e:  # noqa: BLE001
+                    return [{"kind": "two-draws-raise", "signature": f"two-draws-raise:{src['dist']}", "detail": f"drawing twice from one generator raised {type(e).__name__}: {str(e)[:160]}"}]
+                if not np.array_equal(v1, a, equal_nan=True):
+                    return [{"kind": "two-draws-first", "signature": f"two-draws-first:{src['dist']}", "detail": f"the first of two draws from one generator ({order}) is {E._short(v1)}; drawn alone from the same seed it is {E._short(a)}"}]
+                if a.size > 2 and np.array_equal(v2, v1) and src["dist"] not in ("choice", "permutation"):
+                    return [{"kind": "two-draws-equal", "signature": f"two-draws-equal:{src['dist']}", "detail": "two successive draws from one generator are identical"}]
+        # the same seed / layout with another parameter value is another array
+        if src.get("param_sib"):
+            import dask
+
+            out.count("param_sibling_checks")
+            try:
+                ps = eval(src["param_sib"], {"da": da, "np": np})
+                vps = np.asarray(ps.compute(scheduler="sync"))
+                jx, jp = dask.compute(x, ps, scheduler="sync")
+            except NotImplementedError:
+                ps = None
+            except Exception as e:  # noqa: BLE001
+                return [{"kind": "param-sibling-raise", "signature": f"param-sibling-raise:{src['dist']}", "detail": f"{src['param_sib']} raised {type(e).__name__}: {str(e)[:160]}"}]
+            if ps is not None:
+                if ps.name == x.name:
+                    return [{"kind": "param-sibling-name", "signature": f"param-sibling-name:{src['dist']}", "detail": f"{src['param_sib']} has the same name as {src['random']}"}]
+                want_dt = np.dtype("float32") if "float32" in src["param_sib"] else None
+                if want_dt is not None and (ps.dtype != want_dt or vps.dtype != want_dt):
+                    return [{"kind": "param-sibling-dtype", "signature": f"param-sibling-dtype:{src['dist']}", "detail": f"{src['param_sib']} has dtype {ps.dtype} / computes {vps.dtype}"}]
+                if a.size > 2 and vps.shape == a.shape and np.array_equal(vps.astype("f8"), a.astype("f8")):
+                    return [{"kind": "param-sibling-value", "signature": f"param-sibling-value:{src['dist']}", "detail": f"{src['param_sib']} computes exactly the values of {src['random']}"}]
+                if not np.array_equal(np.asarray(jx), a, equal_nan=True) or not np.array_equal(np.asarray(jp), vps, equal_nan=True):
+                    return [{"kind": "param-sibling-joint", "signature": f"param-sibling-joint:{src['dist']}", "detail": "dask.compute(x, parameter sibling) differs from the separate computes"}]
         # blocks are independent streams: no two blocks identical (when large enough)
         return []
     if len(ctx.dpool) >= 3:
